@@ -25,6 +25,7 @@ RULE = ('one evaluation = one seeded sequence of 15-150 backend calls (add, get,
 RULE += ' ' + 'Values include str / int subclasses and bools, compared by type.'
 RULE += ' ' + 'In 40 % of the get_or_set calls with a callable, the callable lets a second backend object store the key meanwhile.'
 RULE += ' ' + 'Timeouts include 30 days, 30 days + 1 s, 40 days and a year (also as backend TIMEOUT), with clock steps of that size.'
+RULE += ' ' + 'A fifth of the runs configure a key-prefixing Disk subclass in OPTIONS, shared by both backend objects.'
 ASSUMPTIONS = ['outcomes the contract leaves open are accepted either way: return value of set/clear/set_many success, delete() of an expired key',
                'live <=> expire_time > now (zero or negative timeout means already expired)']
 PROBES = ('expired_lookups', 'version_ops', 'tie_instant_reached')
